@@ -56,8 +56,9 @@ pub fn build(forge: &mut Forge, cons: &Consensus) -> Result<Universe, String> {
             11 => spec.txs = vec![late.clone()],
             _ => {}
         }
-        // side-chain blocks: two at heights 5,6 (become frozen heights), one at 10, one at 13
-        if h == 5 || h == 10 || h == 13 {
+        // side-chain blocks: at heights 3, 4 and 11 (where the main block carries transactions and
+        // the competitor only a cellbase), two at heights 5,6, one at 10, one at 13
+        if h == 3 || h == 4 || h == 5 || h == 10 || h == 11 || h == 13 {
             let s1 = forge.build_on(&parent, &BlockSpec { miner: 5, ts_offset: 5, ..Default::default() })?;
             sides.push((h, s1.clone()));
             if h == 5 {
@@ -211,7 +212,7 @@ pub fn meta(_tier: Tier) -> Meta {
     Meta {
         id: "C10",
         level: "fault_enumeration",
-        rule: "history family: after every delivery of a 17-block five-epoch chain (txs, uncle, proposals, side blocks at heights 5,6,10,13) a synchronous freeze pass runs on the freezing node; the full query battery (every getter the property names, for every block, tx and cell; store and snapshot) is compared with a twin that never freezes; a restart is inserted after every pass that froze something. crash family: a child is killed at EVERY point of a freeze+wipe pass (freezer points before data / between data and index / before fsync, and every database batch write), for the first pass (tip 12) and the second (tip 16); the parent re-opens, compares the battery, runs the next pass, extends the chain. non-trivial = comparisons made while at least one block is frozen; distinct = (family, tip or crash point).",
+        rule: "history family: after every delivery of a 17-block five-epoch chain (txs, uncle, proposals, side blocks at heights 3,4,5,6,10,11,13 (3,4,11 compete with transaction-bearing main blocks)) a synchronous freeze pass runs on the freezing node; the full query battery (every getter the property names, for every block, tx and cell; store and snapshot) is compared with a twin that never freezes; a restart is inserted after every pass that froze something. crash family: a child is killed at EVERY point of a freeze+wipe pass (freezer points before data / between data and index / before fsync, and every database batch write), for the first pass (tip 12) and the second (tip 16); the parent re-opens, compares the battery, runs the next pass, extends the chain. non-trivial = comparisons made while at least one block is frozen; distinct = (family, tip or crash point).",
         assumptions: &["flat world, 4-block epochs", "process-crash model", "answers about side-chain blocks at frozen heights are exempt (the statement says they are removed)"],
         bounds: json!({"chain_length": CHAIN_LEN, "crash_points": "all of pass 1 and pass 2", "restarts": "after every pass that froze"}),
     }
